@@ -45,7 +45,7 @@ def describe(tier):
         "rule": "for every data array per dimension (rows N, E categories; one-axis dimensions and dimensions with one extra axis (N,2), (N,3)) and every call of C03's sub-space (aggregate x policy x weights x fact): the base cube uses "
         "harness-built dimensions with common 0 and explicit shape E+2; then for EVERY combination (v_1..v_D) in (0..E+1)^D each dimension is replaced by a rebuilt "
         "copy re-encoded with the library's shift_common(v_d) (v = E, E+1 never occur in the data) and the result must equal the base (missing cells exactly, "
-        "values within 1e-9 x grand total); then every dimension is re-normalised with shift_common() and compared again; the unweighted count is also taken with the cube shape INFERRED from the re-expressed dimensions (must evaluate, cover the categories present, agree on the shared cells); and ONE set of index objects is evaluated, re-expressed in place through the whole list of common-value combinations and evaluated after each step (anything an index memoises must follow its common value). shift_common must leave the dense "
+        "values within 1e-9 x grand total); then every dimension is re-normalised with shift_common() and compared again; every combination is also reached through the other door, iindex.from_array(array, common=v); a SCALE family re-expresses two dimensions of 700 / 20001 (70001) rows through all 25 pairs of common values (present, rare, absent); the unweighted count is also taken with the cube shape INFERRED from the re-expressed dimensions (must evaluate, cover the categories present, agree on the shared cells); and ONE set of index objects is evaluated, re-expressed in place through the whole list of common-value combinations and evaluated after each step (anything an index memoises must follow its common value). shift_common must leave the dense "
         "content unchanged. evaluations = re-encoded cube evaluations. Non-trivial: some dimension has >=2 distinct values and the combination differs from "
         "the base encoding. Distinct = distinct (data, call, combination).",
         "bounds": {"sets": SETS[tier]},
@@ -72,7 +72,7 @@ def data_space(cfg, N):
 
 
 def blocks(tier):
-    out = []
+    out = [("scale", {"N": N, "design": g}) for N in SCALE_NS[tier] for g in (0, 1)]
     for si, cfg in enumerate(SETS[tier]):
         for N in cfg["Ns"]:
             D, E = cfg["D"], cfg["E"]
@@ -161,6 +161,21 @@ def check_data(datas, E, N, cfg, acc, only_call=None, only_combo=None):
                 if msg:
                     acc.violation("ccube:%s:%s:differs" % (agg, tag), case, msg)
                 acc.count("reencoded_evals")
+        # re-expression through the OTHER door: the index built directly from the array with the common value given
+        if agg in ("count", "mean"):
+            from catii.iindexes import iindex
+
+            for combo in enc:
+                case = dict(case0, combo=list(combo), stage="from_array(common=v)")
+                try:
+                    fa = [iindex.from_array(dn, common=int(v)) for dn, v in zip(denses, combo)]
+                    msg = same(ev(fa), base, grand)
+                except Exception as e:  # noqa
+                    acc.violation("ccube:%s:from_array:raised" % agg, case, repr(e))
+                    continue
+                if msg:
+                    acc.violation("ccube:%s:from_array:differs" % agg, case, msg)
+                acc.count("from_array_evals")
         # inferred cube shape (no interacting_shape given): an absent common value may lie beyond the data; the cube must still evaluate,
         # cover every category present and agree with the base on the cells they share (everything beyond the base's extent is empty)
         if agg == "count" and ws == ("none",):
@@ -207,7 +222,60 @@ def check_data(datas, E, N, cfg, acc, only_call=None, only_combo=None):
             acc.case((tuple(d.tobytes() for d in denses), tuple(d.shape for d in denses), agg, ignore, ws, fs, combo), nontrivial=nt_cube and any(combo), outcome=(agg, int(base[1].sum()) > 0), sample=lambda: dict(case0, combo=list(combo)))
 
 
+SCALE_NS = {"quick": [700, 20001], "thorough": [700, 20001, 70001]}
+
+
+def check_scale(N, design, acc, only=None):
+    """Thousands of rows: every pair of common values (present, rare, absent) for two dimensions, re-expressed with shift_common on an index
+    built by from_array; count / weighted sum / mean must equal the base encoding (and the base is checked against the group-by by C03)."""
+    from catii.ccubes import ccube
+    from catii.iindexes import iindex
+
+    denses = c03.scale_data(N, design)
+    if denses[0].ndim == 2:
+        denses = [denses[0][:, 0].copy(), denses[1]]
+    shape = (5, 5)
+    calls = [c for c in c03.scale_calls(N) if c[0] in ("count", "sum", "mean")][:7]
+    for ci, call in enumerate(calls):
+        if only is not None and ci != only[0]:
+            continue
+        agg, ignore, ws, fs = call
+        f_arg, x, valid, K, w_arg, w, wok = c03.realise(N, ws, fs)
+        grand = Q.grand_total(x, w, N, K)
+
+        def ev(dims):
+            f2, _, _, _, w2, _, _ = c03.realise(N, ws, fs)
+            return Q.normalise(Q.call_cube(ccube(dims, interacting_shape=shape), agg, f2, w2, ignore, Q.NaN), Q.NaN)
+
+        base = ev([iindex.from_array(d, common=0) for d in denses])
+        for combo in itertools.product(range(5), repeat=2):
+            if only is not None and list(combo) != only[1]:
+                continue
+            case = {"scale": [N, design], "call_index": ci, "agg": agg, "combo": list(combo)}
+            try:
+                dims = [iindex.from_array(d, common=0) for d in denses]
+                for ix, v in zip(dims, combo):
+                    ix.shift_common(v)
+                msg = same(ev(dims), base, grand)
+                if not msg:
+                    for ix in dims:
+                        ix.shift_common()
+                    msg = same(ev(dims), base, grand)
+                    if msg:
+                        msg = "after re-normalising: " + msg
+            except Exception as e:  # noqa
+                acc.violation("ccube:%s:scale:raised" % agg, case, repr(e))
+                continue
+            if msg:
+                acc.violation("ccube:%s:scale:differs" % agg, case, msg)
+            acc.count("scale_evals")
+            acc.case(("scale", N, design, ci, combo), nontrivial=True, outcome=("scale", agg), sample=lambda: case)
+
+
 def run_block(family, p, acc):
+    if family == "scale":
+        check_scale(p["N"], p["design"], acc)
+        return
     cfg = SETS[p["tier"]][p["si"]]
     N, D, E = p["N"], cfg["D"], cfg["E"]
     for datas in itertools.islice(itertools.product(*data_space(cfg, N)), p["a0"], p["a1"]):
@@ -218,6 +286,11 @@ def replay(case, site=None):
     from ..core import Acc
 
     acc = Acc(ID, [], stop_at_first=False)
+    if case.get("scale"):
+        check_scale(case["scale"][0], case["scale"][1], acc, only=(case["call_index"], case["combo"]))
+        for v in acc.violations:
+            print("  %s :: %s" % (v["site"], v["detail"][:700]))
+        return bool(acc.violations)
     datas = [numpy.array(t, dtype=numpy.int64) for t in case["data"]]
     cfg = dict(wl=0, Ks=[0], fl=1, forms=["nan"], vals=["pow2"], wforms=True)
     if "agg" in case:
